@@ -4,7 +4,7 @@ import re
 from vf import lex
 from vf.extract import Source, Unit
 from vf.lex import Rule, ExtractionBreak
-from vf.pipeline import Group, Replay, ALL_LIB
+from vf.pipeline import Group, Replay
 
 ID = 'C17'
 LEVEL = 'proof'
